@@ -94,6 +94,19 @@ func TestFoxvcStandinAlloc(t *testing.T) {
 						st.SampleCases = append(st.SampleCases, fmt.Sprintf("routes=%q ignoreTS=%v host=%q path=%q -> %s tsr=%v allocs=%v", patterns, ignoreTS, host, path, route.Pattern(), tsr, allocs))
 					}
 				}
+				// the same request through Lookup + Close (the context must go back to the pool it came from)
+				rw := newResponseWriter(w)
+				if rt, cc, _ := f.Lookup(rw, req); rt != nil {
+					cc.Close()
+					la := testing.AllocsPerRun(5, func() {
+						if _, cc, _ := f.Lookup(rw, req); cc != nil {
+							cc.Close()
+						}
+					})
+					if la != 0 && len(st.Mismatches) < 40 {
+						st.Mismatches = append(st.Mismatches, fmt.Sprintf("allocs-lookup routes=%q ignoreTS=%v host=%q path=%q: Lookup+Close of a request served by %s costs %v allocations per call, want 0", patterns, ignoreTS, host, path, route.Pattern(), la))
+					}
+				}
 				if allocs != 0 && len(st.Mismatches) < 40 {
 					st.Mismatches = append(st.Mismatches, fmt.Sprintf("allocs routes=%q ignoreTS=%v host=%q path=%q: served by %s (tsr=%v) with %v allocations per request, want 0", patterns, ignoreTS, host, path, route.Pattern(), tsr, allocs))
 				}
